@@ -126,4 +126,54 @@ theorem forImages_frame_to_total {ds : ImageDs} {tf : TiledFull} {P : Plane} {z 
     simp only [Plane.fwd] at this ⊢
     exact this
 
+/-- the same for image coordinates: `ImageToImageTransformer.for_images(frame → total pixel matrix)` shifts by the same integers -/
+theorem forImages_frame_to_total_image {ds : ImageDs} {tf : TiledFull} {P : Plane} {z sbs : Option Rat} (h : TiledSlide ds tf P z sbs)
+    (hP : P.Valid) (hn : P.nrm.dot P.nrm = 1) (u : String) (hu : ds.frameOfReference = some u)
+    (ch tr tc : Nat) (hch : ch < tf.channels) (hpl : 0 < tf.npl) (htr : tr < tf.ntr) (htc : tc < tf.ntc) :
+    ∃ a, imgToImgForImages ds ds (some (tf.frameNumber ch 0 tr tc)) none false true = .ok a ∧
+      ∀ x y : Rat, a.apply ⟨x, y, 0⟩ = ⟨(((tc : Int) * tf.cols : Int) : Rat) + x, (((tr : Int) * tf.rows : Int) : Rat) + y, 0⟩ := by
+  have hinfo := spatialInfo_tiled_frame h ch 0 tr tc hch hpl htr htc
+  have htot := spatialInfo_total h none
+  set v0 : V3 := ⟨(((tc : Int) * tf.cols : Int) : Rat), (((tr : Int) * tf.rows : Int) : Rat), 0⟩ with hv0
+  set posf := ((P.lift (((0 : Nat) : Rat) * sbs.getD 1)).fwd 1).apply v0 with hposf
+  have hposf' : posf = (P.fwd 1).apply v0 := by
+    rw [hposf, Plane.lift_fwd_apply]
+    generalize (P.fwd 1).apply v0 = w
+    cases w; simp [V3.add]
+  let Q : Plane := Plane.mk posf P.o P.sr P.sc
+  have hQ : Q.Valid := ⟨hP.hr, hP.hc, hP.hn⟩
+  have hsame : SamePlane Q P := by
+    refine ⟨Or.inl rfl, ?_⟩
+    show posf.dot P.nrm = P.pos.dot P.nrm
+    rw [hposf', V3.dot_comm, hv0, fwd_in_plane, V3.dot_comm]
+  have hacc := hsame.accepted (by show P.nrm.dot P.nrm = 1; exact hn)
+  obtain ⟨mi, hmi, hev⟩ := imgToImgAffine_eval Q P hQ hP
+  rw [if_pos hacc] at hev
+  obtain ⟨mi', hmi', hevp⟩ := pixToPixAffine_eval Q P hQ hP
+  rw [if_pos hacc] at hevp
+  rw [hmi] at hmi'; cases hmi'
+  have hc := (forImages_eq_constructor ds ds u hu hu (some (tf.frameNumber ch 0 tr tc)) none false true _ _ hinfo htot).2
+  obtain ⟨b, hb, hconj⟩ := imgToImg_conjugates_pixToPix hev
+  rw [hevp] at hb
+  cases hb
+  refine ⟨(((Aff.shift (vecOfTriple Gen.pixToImCorrection)).comp (Aff.mk mi (mi.mulVec P.pos).neg)).comp (Q.fwd 1)).comp
+      (Aff.shift (vecOfTriple Gen.imToPixCorrection)), ?_, ?_⟩
+  · rw [hc]
+    simp only [← hposf, V3.toList_eq_posL posf P.o P.sr P.sc]
+    exact hev
+  · intro x y
+    rw [hconj, Aff.comp_apply]
+    have e : (Q.fwd 1).apply ⟨x - 1 / 2, y - 1 / 2, 0⟩ = (P.fwd 1).apply ⟨v0.x + (x - 1 / 2), v0.y + (y - 1 / 2), 0⟩ := by
+      show (Plane.fwd ⟨posf, P.o, P.sr, P.sc⟩ 1).apply ⟨x - 1 / 2, y - 1 / 2, 0⟩ = _
+      rw [hposf']
+      obtain ⟨⟨px, py, pz⟩, ⟨⟨a1, a2, a3⟩, ⟨b1, b2, b3⟩⟩, sr, sc⟩ := P
+      simp only [Plane.fwd, Aff.apply, M3.mulVec, V3.smul, V3.add, Plane.nrm, V3.cross, V3.mk.injEq]
+      refine ⟨?_, ?_, ?_⟩ <;> ring
+    rw [e]
+    have := Aff.inv_apply_left hmi P.pos ⟨v0.x + (x - 1 / 2), v0.y + (y - 1 / 2), 0⟩
+    simp only [Plane.fwd] at this ⊢
+    rw [this]
+    simp only [V3.add, V3.mk.injEq, hv0]
+    refine ⟨?_, ?_, ?_⟩ <;> ring
+
 end HdVerif.Affine
